@@ -255,45 +255,50 @@ ensures r == self.jbit(n as int),''',
     # event::process: events -> Output.  C01: every forward_parent chain it follows stays inside the list and on Start events
     # (the invariant `fp_ok` that every parser operation maintains, part of Parser::wf); C02: every Token event is passed on,
     # in order, with its raw-token count, and every Finish event becomes one Exit step.
-    INV = 'tok_steps(output.steps()) == tok_events(ev0.take(i as int)), n_exit(output.steps()) == n_finish(ev0.take(i as int)), steps_ok(output.steps()), tok_sum_b(output.steps()) == ev_sum(ev0.take(i as int)),'
+    INV = 'tok_steps(output.steps()) == tok_events(ev0.take(i as int)), n_exit(output.steps()) == n_finish(ev0.take(i as int)), steps_ok(output.steps()), tok_sum_b(output.steps()) == ev_sum(ev0.take(i as int)), sbal(output.steps()) + kinds_real(forward_parents@) + bal(events@) == 0,'
     e.fn('process', ret='r', props=P,
          rewrites=[('D26', 'for i in 0..events.len() {', 'for i in oq3_r: 0..events.len() {'),
                    ('D27', 'for kind in forward_parents.drain(..).rev() {', 'while let Some(kind) = forward_parents.pop() {'),
                    ('D25', 'pub(super) fn process(mut events: Vec<Event>)', 'pub(super) fn process(events: Vec<Event>)'),
                    ('D25', 'let mut output = Output::default();', 'let mut events = events; let mut output = Output::default();')],
          spec='''
-requires fp_ok(events@), toks_ok(events@),                       // established by the parser: Parser::wf() of the final state
+requires fp_ok(events@), toks_ok(events@), bal(events@) == 0,     // established by the parser: Parser::wf() of the final state
 ensures tok_steps(r.steps()) == tok_events(events@),             //@C02,C01:every-token-event-is-passed-on
     n_exit(r.steps()) == n_finish(events@),                      //@C02,C01:every-finish-becomes-one-exit
     steps_ok(r.steps()), tok_sum_b(r.steps()) == ev_sum(events@),                    //@C02,C01:token-steps-account-for-the-consumed-tokens
+    sbal(r.steps()) == 0,                                                            //@C02,C01:as-many-enter-as-exit-steps
     root_first(events@) ==> r.steps().len() >= 1 && r.steps()[0] is Enter,           //@C02,C01:output-starts-with-enter
     (events@.len() > 0 && events@.last() is Finish) ==> r.steps().len() >= 1 && r.steps().last() is Exit,       //@C02,C01:output-ends-with-exit''',
-         ghost=[('let mut forward_parents = Vec::new();', 'after', 'let ghost ev0 = events@; broadcast use lemma_steps_push;'),
-                ('match mem::replace(&mut events[i], Event::tombstone()) {', 'before', 'let ghost ev_i = events@; proof { assert(is_token(ev0[i as int]) ==> tok_n(ev0[i as int]) >= 1); }'),
+         ghost=[('let mut forward_parents = Vec::new();', 'after', 'let ghost ev0 = events@; broadcast use lemma_steps_push, lemma_kinds_push;'),
+                ('match mem::replace(&mut events[i], Event::tombstone()) {', 'before', 'let ghost ev_i = events@; proof { assert(is_token(ev0[i as int]) ==> tok_n(ev0[i as int]) >= 1); lemma_bal_update(ev_i, i as int, tomb()); }'),
+                ('idx += fwd as usize;', 'after', 'proof { lemma_bal_update(events@, idx as int, tomb()); }'),
                 ('let mut idx = i;', 'before', 'let ghost k0 = kind;'),
                 ('let mut fp = forward_parent;', 'after', 'proof { assert(has_fp(ev_i[i as int]) == (fp is Some)); if fp is Some { assert(fp_of(ev_i[i as int]) == fp->Some_0); assert(start_at(ev_i, i + fp_of(ev_i[i as int]))); } }'),
                 ('idx += fwd as usize;', 'before', 'let ghost ev_j = events@; assert(fp == Some(fwd)); assert(idx + fwd < events.len());'),
                 ('_ => unreachable!(),\n                    };', 'after', 'proof { assert(has_fp(ev_j[idx as int]) == (fp is Some)); if fp is Some { assert(fp_of(ev_j[idx as int]) == fp->Some_0); assert(start_at(ev_j, idx + fp_of(ev_j[idx as int]))); } }'),
-                ('\n    output\n', 'before', 'proof { assert(ev0.take(ev0.len() as int) =~= ev0); }')],
+                ('\n    output\n', 'before', 'proof { assert(ev0.take(ev0.len() as int) =~= ev0); lemma_bal_all_tomb(events@); }')],
          loops={1: '''invariant oq3_r.iter.end == ev0.len(), rest_kept(ev0, events@, i as int), fp_ok(events@), toks_ok(ev0), forward_parents@.len() == 0,
+    forall|j: int| 0 <= j < i ==> events@[j] == tomb(),
     i == 0 ==> events@ == ev0 && output.steps().len() == 0,
     (i >= 1 && root_first(ev0)) ==> output.steps().len() >= 1 && output.steps()[0] is Enter,
     (i >= 1 && ev0[i - 1] is Finish) ==> output.steps().len() >= 1 && output.steps().last() is Exit,
     ''' + INV,
                 2: '''invariant idx < events@.len(), i <= idx, rest_kept(ev0, events@, i as int + 1), fp_ok(events@),
     fp is Some ==> fp->Some_0 >= 1 && start_at(events@, idx + fp->Some_0),
+    forall|j: int| 0 <= j <= i ==> events@[j] == tomb(),
     forward_parents@.len() >= 1, forward_parents@[0] == k0, i == 0 ==> output.steps().len() == 0, (i == 0 && root_first(ev0)) ==> k0 != SyntaxKind::TOMBSTONE,
     (i >= 1 && root_first(ev0)) ==> output.steps().len() >= 1 && output.steps()[0] is Enter,
     ''' + INV + '''
 decreases events@.len() - idx,''',
                 3: '''invariant
+    forall|j: int| 0 <= j <= i ==> events@[j] == tomb(), events@.len() == ev0.len(), i < ev0.len(), rest_kept(ev0, events@, i as int + 1), fp_ok(events@),
     (i == 0 && root_first(ev0)) ==> k0 != SyntaxKind::TOMBSTONE,
     (i == 0 && root_first(ev0)) ==> ((output.steps().len() == 0 && forward_parents@.len() >= 1 && forward_parents@[0] == k0) || (output.steps().len() >= 1 && output.steps()[0] is Enter)),
     (i >= 1 && root_first(ev0)) ==> output.steps().len() >= 1 && output.steps()[0] is Enter,
     ''' + INV + '''
 ensures forward_parents@.len() == 0,
 decreases forward_parents@.len(),'''},
-         loop_ghost='broadcast use lemma_steps_push; proof { if (i as int) < ev0.len() { lemma_take_step(ev0, i as int); } }')
+         loop_ghost='broadcast use lemma_steps_push, lemma_kinds_push; proof { if (i as int) < ev0.len() { lemma_take_step(ev0, i as int); } }')
     U.raw('}\n')
     # ------------------------------------------------------------------ output (write side; trusted, backed by the Kani round-trip harnesses)
     U.raw('''pub mod output {
@@ -389,7 +394,7 @@ requires old(self).wf(), old(self).pos + n_raw_tokens <= old(self).inp.kind@.len
 ensures final(self).wf(), final(self).inp == old(self).inp, final(self).pos == old(self).pos + n_raw_tokens,
     final(self).events@ == old(self).events@.push(Event::Token { kind, n_raw_tokens }), old(self).has_err() ==> final(self).has_err(),''')),
         ('push_event', dict(props=P, ghost=[('self.events.push(event);', 'before', 'proof { lemma_has_err_push(self.events@, event); }')],
-                            spec='ensures final(self).events@ == old(self).events@.push(event), final(self).inp == old(self).inp, final(self).pos == old(self).pos,\n    final(self).has_err() == (old(self).has_err() || event is Error),\n    ev_sum(final(self).events@) == ev_sum(old(self).events@) + tok_n(event), toks_ok(final(self).events@) == (toks_ok(old(self).events@) && (event is Token ==> tok_n(event) >= 1)),')),
+                            spec='ensures final(self).events@ == old(self).events@.push(event), final(self).inp == old(self).inp, final(self).pos == old(self).pos,\n    final(self).has_err() == (old(self).has_err() || event is Error),\n    ev_sum(final(self).events@) == ev_sum(old(self).events@) + tok_n(event), toks_ok(final(self).events@) == (toks_ok(old(self).events@) && (event is Token ==> tok_n(event) >= 1)),\n    bal(final(self).events@) == bal(old(self).events@) + real_n(event) - fin_n(event),')),
     ])
     MK = 'requires old(p).wf(),'
     p.impl('Marker', [
@@ -659,6 +664,7 @@ requires input.wf(), forall|i: int| 0 <= i < input.kind@.len() ==> #[trigger] in
 ensures
     // the Token steps never account for more raw tokens than the input holds, none is empty, and there is no FloatSplit step
     tok_sum(r.steps()) <= input.kind@.len(), crate::event::steps_ok(r.steps()),                         //@C02,C01:token-steps-within-the-input
+    crate::event::sbal(r.steps()) == 0,                                                                 //@C02,C01:as-many-enter-as-exit-steps
     // for a source file: one root node around everything, and the Token steps account for EVERY token of the input
     *self is SourceFile ==> output_shape(r.steps()) && tok_sum(r.steps()) == input.kind@.len(),         //@C02,C01:source-file-output-covers-the-input''',
         ghost=[('        res\n', 'before', 'proof { crate::event::lemma_tok_sum_b(res.steps()); }')]))])
